@@ -634,6 +634,16 @@ Proof.
   intros H. rewrite run_snoc, in_tab_publish, bytes_eqb_refl, H. apply andb_false_r.
 Qed.
 
+(* a PUBLISH never costs an open connection a subscription, on any channel: only connections
+   whose write failed are pruned (so a stalled or dead subscriber cannot take the others with it) *)
+Theorem publish_keeps_open_subscribers pre p ch m c ch' :
+  is_closed (run init pre) c = false ->
+  in_tab (run init (pre ++ [Publish p ch m])) c ch' = in_tab (run init pre) c ch'.
+Proof.
+  intros H. rewrite run_snoc, in_tab_publish, H.
+  destruct (bytes_eqb ch' ch); [apply andb_true_r|reflexivity].
+Qed.
+
 (* ---------------------------------------------------------------- idempotent SUBSCRIBE *)
 
 Theorem subscribe_idempotent st c ch :
